@@ -257,7 +257,7 @@ func TestOracleTree(t *testing.T) {
 			t.Fatalf("account keys differ")
 		}
 		k, _ := o.Key(s, 3, 1, 17)
-		hb, _ := ha3.DeriveNonStandard(1)  // nolint:staticcheck
+		hb, _ := ha3.DeriveNonStandard(1) // nolint:staticcheck
 		hk, _ := hb.DeriveNonStandard(17) // nolint:staticcheck
 		hpk, _ := hk.ECPrivKey()
 		if !bytes.Equal(hpk.Serialize(), k.PrivBytes()) {
